@@ -515,6 +515,7 @@ fn proxy_expect<'a, E: Deserialize<'a> + Debug>(frame: &'a [u8]) -> Expect {
     match ref_reply::<serde::de::IgnoredAny, E>(frame) {
         Expect::Exactly(Outcome::Msg(m)) if m.starts_with("success") => Expect::Exactly(Outcome::Msg(format!("success {:?}", Reply::new(None::<()>)))),
         Expect::DecodeErrOr(Outcome::Msg(m)) if m.starts_with("success") => Expect::DecodeErrOr(Outcome::Msg(format!("success {:?}", Reply::new(None::<()>)))),
+        Expect::NonObjectReply(Some(Outcome::Msg(m))) if m.starts_with("success") => Expect::NonObjectReply(Some(Outcome::Msg(format!("success {:?}", Reply::new(None::<()>))))),
         other => other,
     }
 }
